@@ -337,7 +337,7 @@ RESTRICTIONS = [
     ("@memoize without Clone", R("rule::", ["str:Clone", "field:derives"], flags="memoize")),
     ("non-ASCII case-insensitive literal", R("StringLiteral", ["call:is_ascii", "field:insensitive"])),
     ("invalid code point", R("string::", ["call:from_u32"])),
-    ("include of a missing / @char / @extern rule", R("IncludeRule", ["field:name"], [])),
+    ("include of a missing / @char / @extern rule", R("IncludeRule", ["field:rules"], [])),
 ]
 
 
